@@ -22,6 +22,10 @@ CLAIMS = {
   "LimitPlan and FinalLimitPlan (Init, Next, Batch) are proved, for every offset, count, result size, symbolic batch size and every split of the child's output into batches, to return exactly the next rows Start+current.. of the child's ghost output sequence, to stop at Count or at the child's end, and to maintain the object invariant that makes the per-call statement compose over calls.",
   TRUST + "The child is represented by the Plan/FinalPlan interface contract (ghost sequence, any batch split). Composition over calls is an induction argued on paper with the machine-checked object invariant as hypothesis. The limit half of AggregatePlan.Next/Batch is proved over assumed thin contracts of next()/batch(); parseLimit and buildFinalPlan wiring are not yet under contract.",
   "DESIGN.md section 5, C08"),
+ "C10": ("proof",
+  "Row forms of the scalar functions are under contract against their one-line descriptions: value coercions (decimal rendering and reading), str / int / float / is_int / is_float / strlen, substr (clamped byte range), len and [n] over every list representation, int_list / float_list keeping argument order, distances refusing unequal lengths. 19 functions; three defects found by failed obligations and repaired (substr panic, len and indexing refusing list kinds).",
+  TRUST + "upper / lower, split / join, json parsing and the numeric values of the distances rest on standard-library behaviour or uninterpreted floats and are not covered; the vector forms belong to C03.",
+  "DESIGN.md section 5, C10"),
  "C11": ("proof",
   "DeletePlan (execute, Init, Next, Batch) is proved to drain its child's ghost output sequence, to hand exactly the keys of each batch - and nothing else - to BatchDelete, to delete as many keys as rows were drained, to issue no Put/BatchPut/Delete, and to execute once.",
   TRUST + "Storage behaviour (A-STORE) and the child's interface contract are assumptions; that the child sequence equals what the corresponding SELECT returns is composition with C01/C02/C08 (paper step). buildDeletePlan and the REMOVE shortcut are not yet under contract.",
